@@ -20,7 +20,8 @@
 (***************************************************************************)
 EXTENDS Wb, Json, SequencesExt
 
-CONSTANTS ApproxZeroBug
+CONSTANTS ApproxZeroBug,
+          Resets          \* where a second point-less entry may stand: subset of {"none", "mid", "end"}
 
 (* lattice unit: 100 km; values in km *)
 Polygons == << << <<0, 0>>, <<4, 0>>, <<4, 3>>, <<0, 3>> >>,          \* has corners with a zero coordinate
@@ -36,15 +37,20 @@ Default == 60                                      \* the value of the point-les
 AreaTypes == {"continental plate", "oceanic plate", "mantle layer"}
 (* which: the surface is the feature's max depth (min depth constant), its min depth (max depth constant), or both
    (the max depth surface is the min depth surface shifted down by 150 km) *)
-Configs == [poly : 1..3, listed : SUBSET (1..4), nint : 0..2, affine : BOOLEAN, cornersfirst : BOOLEAN, type : AreaTypes, which : {"max", "min", "both"}]
-Valid(c) == c.affine => c.listed = 1..4            \* affine data need every corner listed (a fifth corner of the pentagon too)
+Configs == [poly : 1..3, listed : SUBSET (1..4), nint : 0..2, affine : BOOLEAN, cornersfirst : BOOLEAN, type : AreaTypes, which : {"max", "min", "both"},
+            reset : Resets]
+Valid(c) == /\ c.affine => (c.listed = 1..4 /\ c.reset = "none")   \* affine data need every corner listed (a fifth corner of the pentagon too)
+            /\ c.reset # "none" => c.nint > 0                       \* a later point-less entry is interesting when listed interior points precede it
+ResetV == 80                                       \* the value of the later point-less entry: resets the corners, and only the corners
 
 Val(c, p, k) == IF c.affine THEN Affine(p) ELSE Affine(p) + 7 * k      \* the k-th listed point, bumped off the plane
 CornerEntries(c) == LET P == Polygons[c.poly]
                         L == IF c.affine THEN 1..Len(P) ELSE c.listed \cap (1..Len(P))
                     IN [k \in 1..Cardinality(L) |-> <<Val(c, P[SetToSeq(L)[k]], k), <<P[SetToSeq(L)[k]]>>>>]
 InteriorEntries(c) == [k \in 1..c.nint |-> <<Val(c, Interior(c.poly)[k], k + 4), <<Interior(c.poly)[k]>>>>]
-Entries(c) == <<<<Default>>>> \o (IF c.cornersfirst THEN CornerEntries(c) \o InteriorEntries(c) ELSE InteriorEntries(c) \o CornerEntries(c))
+Entries(c) == LET a == IF c.cornersfirst THEN CornerEntries(c) ELSE InteriorEntries(c)
+                  b == IF c.cornersfirst THEN InteriorEntries(c) ELSE CornerEntries(c)
+              IN <<<<Default>>>> \o a \o (IF c.reset = "mid" THEN <<<<ResetV>>>> ELSE <<>>) \o b \o (IF c.reset = "end" THEN <<<<ResetV>>>> ELSE <<>>)
 
 (***************************************************************************)
 (* Prop: nodal values as a function coordinate -> value                    *)
@@ -132,7 +138,7 @@ Rows(c) ==
 
 Behaviour(c) ==
   [id |-> <<"surface", c>>,
-   labels |-> <<"surface", IF c.affine THEN "affine" ELSE "bumped", "poly" \o ToString(c.poly), c.type, "surface-of-" \o c.which>>
+   labels |-> <<"surface", IF c.affine THEN "affine" ELSE "bumped", "poly" \o ToString(c.poly), c.type, "surface-of-" \o c.which, "reset-" \o c.reset>>
               \o (IF \E e \in {Entries(c)[k] : k \in 1..Len(Entries(c))} : Len(e) = 2 /\ e[2][1] \in Corners(c) /\ (e[2][1][1] = 0 \/ e[2][1][2] = 0)
                   THEN <<"listed-corner-with-zero-coordinate">> ELSE <<>>),
    steps |-> << [op |-> "create", h |-> 1, wb |-> Doc(c)],
